@@ -135,6 +135,14 @@ func genStream(rng *prng.R, o streamOpts) []srcCmd {
 			inTx = rng.Range(1, 4)
 			continue
 		}
+		if inTx > 0 && len(o.DBs) > 1 && rng.Chance(1, 4) {
+			// a client may switch database inside its transaction: the master then propagates the SELECT inside the MULTI block
+			db := o.DBs[rng.Intn(len(o.DBs))]
+			if db != cur {
+				sel(db)
+				out[len(out)-1].InTx = true
+			}
+		}
 		switch k := rng.Intn(24); {
 		case k < 5:
 			add("set", key(), val())
